@@ -475,6 +475,17 @@ func stageTraversal(sink *hx.Sink) {
 
 // ---- conditional requests (C04)
 
+// retag rewrites a header value built around the tag old (plain, upper-cased, or with its
+// first byte escaped) into the same spelling of the tag now.
+func retag(h, old, now string) string {
+	h = strings.ReplaceAll(h, old, now)
+	h = strings.ReplaceAll(h, strings.ToUpper(old), strings.ToUpper(now))
+	for _, f := range []string{`\x%02x%s`, `\%03o%s`, `\u%04x%s`} {
+		h = strings.ReplaceAll(h, fmt.Sprintf(f, old[0], old[1:]), fmt.Sprintf(f, now[0], now[1:]))
+	}
+	return h
+}
+
 func stageCond(sink *hx.Sink) {
 	// resource states: absent, file, collection; header values built around the current tag
 	jobs := make(chan job, 64)
@@ -514,8 +525,14 @@ func stageCond(sink *hx.Sink) {
 			stale := `"0deadbeef7"`
 			values := func(cur string) []string {
 				vs := []string{"", "*", stale, `"other"`, `unquoted`, `W/"weak"`, `"a", "b"`, `'a'`, "`raw`", `"`, `"\q"`}
+				vs = append(vs, `"\u00e9"`, "\"\xff\"", `"a"b"`, `""`, `"a\`, `"tab\there"`)
 				if cur != "" {
-					vs = append(vs, cur, cur+" ", strings.Trim(cur, `"`))
+					bare := strings.Trim(cur, `"`)
+					// other spellings of the same tag as a Go string literal: they decode to it
+					esc := fmt.Sprintf(`"\x%02x%s"`, bare[0], bare[1:])
+					oct := fmt.Sprintf(`"\%03o%s"`, bare[0], bare[1:])
+					uni := fmt.Sprintf(`"\u%04x%s"`, bare[0], bare[1:])
+					vs = append(vs, cur, cur+" ", bare, esc, oct, uni, "W/"+cur, cur+`, "x"`, cur+cur, " "+cur, strings.ToUpper(cur))
 				}
 				return vs
 			}
@@ -533,8 +550,8 @@ func stageCond(sink *hx.Sink) {
 							// keep header values in step with the tag of the rebuilt file
 							now := `"` + fi.ETag + `"`
 							if cur != "" && now != cur {
-								r.IfMatch = strings.ReplaceAll(r.IfMatch, strings.Trim(cur, `"`), strings.Trim(now, `"`))
-								r.IfNoneMatch = strings.ReplaceAll(r.IfNoneMatch, strings.Trim(cur, `"`), strings.Trim(now, `"`))
+								r.IfMatch = retag(r.IfMatch, strings.Trim(cur, `"`), strings.Trim(now, `"`))
+								r.IfNoneMatch = retag(r.IfNoneMatch, strings.Trim(cur, `"`), strings.Trim(now, `"`))
 							}
 						}
 						d, o, after := sb.Do(r, before)
